@@ -255,6 +255,22 @@ class C01Machine(Machine):
                 # storage history: the same durable file booted again after the first sample was modified in memory
                 if case.get('reload') and o['kind'] == 'ok' and o.get('obj') is not None:
                     d = o['obj']
+                    # storage history: the durable file is overwritten in place (same length, every byte changed) after the
+                    # load - an acquisition program re-using the file name, a sync tool; the sample loaded earlier holds
+                    # the events recorded when it was loaded
+                    pth = dk.path('f.fcs')
+                    orig = dk.files['f.fcs']
+                    with open(pth, 'r+b') as fh:
+                        fh.write((np.frombuffer(orig, dtype=np.uint8) ^ 0xFF).tobytes())
+                    now = np.array(d.view(np.ndarray))
+                    log.add('overwritten-in-place', arr_fp(now))
+                    if not data_equal(now, T['data']):
+                        out['violations'].append(violation(
+                            'C01/values', 'overwrite-after-load/%s' % lc,
+                            'the sample changed when its file was overwritten in place after loading'))
+                    with open(pth, 'r+b') as fh:
+                        fh.write(orig)
+                    out['probes']['file_overwritten_in_place_after_load'] = 1
                     try:
                         if d.size:
                             d[...] = 0 if spec['datatype'] == 'I' else -1.0
